@@ -14,7 +14,10 @@
 
 use crate::{
     Context, JsArgs, JsResult, JsString,
-    builtins::{BuiltInBuilder, BuiltInConstructor, BuiltInObject, IntrinsicObject},
+    builtins::{
+        BuiltInBuilder, BuiltInConstructor, BuiltInObject, IntrinsicObject,
+        number::{f64_to_int32, f64_to_uint32},
+    },
     context::intrinsics::{Intrinsics, StandardConstructor, StandardConstructors},
     error::JsNativeError,
     js_string,
@@ -538,15 +541,18 @@ impl TypedArrayKind {
     /// assuming the `ContentType` of this kind is `Number`.
     pub(crate) fn to_element_f64(self, value: f64) -> TypedArrayElement {
         match self {
-            TypedArrayKind::Int8 => TypedArrayElement::Int8(value as i8),
-            TypedArrayKind::Uint8 => TypedArrayElement::Uint8(value as u8),
-            TypedArrayKind::Uint8Clamped => {
-                TypedArrayElement::Uint8Clamped(ClampedU8(value.clamp(0.0, 255.0).round() as u8))
-            }
-            TypedArrayKind::Int16 => TypedArrayElement::Int16(value as i16),
-            TypedArrayKind::Uint16 => TypedArrayElement::Uint16(value as u16),
-            TypedArrayKind::Int32 => TypedArrayElement::Int32(value as i32),
-            TypedArrayKind::Uint32 => TypedArrayElement::Uint32(value as u32),
+            // NOTE: `as` casts from `f64` saturate; the integer conversions are modular
+            //       (ToInt8, ToUint8, ... are ToInt32 truncated to the element width).
+            TypedArrayKind::Int8 => TypedArrayElement::Int8(f64_to_int32(value) as i8),
+            TypedArrayKind::Uint8 => TypedArrayElement::Uint8(f64_to_int32(value) as u8),
+            TypedArrayKind::Uint8Clamped => TypedArrayElement::Uint8Clamped(ClampedU8(
+                // ToUint8Clamp rounds ties to even.
+                value.clamp(0.0, 255.0).round_ties_even() as u8,
+            )),
+            TypedArrayKind::Int16 => TypedArrayElement::Int16(f64_to_int32(value) as i16),
+            TypedArrayKind::Uint16 => TypedArrayElement::Uint16(f64_to_int32(value) as u16),
+            TypedArrayKind::Int32 => TypedArrayElement::Int32(f64_to_int32(value)),
+            TypedArrayKind::Uint32 => TypedArrayElement::Uint32(f64_to_uint32(value)),
             #[cfg(feature = "float16")]
             TypedArrayKind::Float16 => {
                 TypedArrayElement::Float16(Float16(float16::f16::from_f64(value)))
